@@ -171,7 +171,16 @@ func runFieldCase(r *Run, family string, c fieldCase, extraHooks map[string]hook
 				nReal = ent.nOuts
 			}
 		}
-		if nReal >= 0 && nReal != len(refs) && !(c.acceptReplay != nil && nReal == 0) {
+		if c.acceptReplay != nil {
+			// acceptance-style case: the results are the asserted equalities; decide on the real code
+			if m := c.acceptReplay(); m != "" {
+				r.addViolationWithReplay(c.name, fmt.Sprintf("%s: the real code asserts %d coordinate equalities, the specification has %d; %s", c.name, len(outs)/2, len(refs)/2, m), map[string]any{"kind": "functional", "family": family, "case": c.name}, "gnark test engine on the real code")
+			} else {
+				r.Infra("%s: the real code asserts %d coordinate equalities, the specification has %d, but the accept/reject replay shows no disagreement", c.name, len(outs)/2, len(refs)/2)
+			}
+			return nil
+		}
+		if nReal >= 0 && nReal != len(refs) {
 			r.addViolationWithReplay(c.name, fmt.Sprintf("%s: the real code produces %d result values, the specification %d", c.name, nReal, len(refs)), map[string]any{"kind": "functional", "family": family, "case": c.name}, "gnark test engine on the real code")
 		} else {
 			r.Infra("%s: implementation returns %d values, reference %d (real engine: %d)", c.name, len(outs), len(refs), nReal)
